@@ -41,6 +41,35 @@ CHECKS["C02"] = (
     "the tolerance are clamped before the second call; saturated items (|logabsdet| > 20 per item) are counted and skipped.",
     "DESIGN.md section 3 C02")
 
+CHECKS["C06"] = (
+    "taint / data-flow run of the real masked network after a call history (eval forward, load_state_dict of all-positive "
+    "weights, train/eval toggle): positive-weight Jacobian gives the boolean reachability matrix of the executed computation; "
+    "bit-identity spot check with random weights; triangular-Jacobian monitor on the masked autoregressive transforms",
+    "For every enumerated architecture of both MADE copies (and the mixture-of-Gaussians subclass) the reachability matrix of the "
+    "network as executed is measured; because all path products are positive nothing cancels, so 'no path' is 'no dependence for any "
+    "weights'. Quick: a covering subset (~4.7k architectures), thorough: the full product (features 1-6 x hidden 1-8,16,33 x blocks 0-3 x "
+    "residual/feed-forward/20 random-mask draws x context x multiplier x batch-norm x dropout).",
+    "Assumes monotone activations with positive derivative at the probe point and torch autograd; sizes bounded as stated.",
+    "DESIGN.md section 3 C06")
+CHECKS["C07"] = (
+    "bitwise identity monitor + single-element perturbation (metamorphic) monitor + autograd Jacobian sparsity/sign pattern on the "
+    "real coupling layers, masks enumerated exhaustively for 2..5 features with numeric values of both signs",
+    "Every non-trivial subset mask for 2-5 features, with mask values drawn from {-2,-1,0 | 0.5,1,3}, for all seven coupling classes, "
+    "2-D and image inputs, both directions, with/without context and unconditional transform: identity features compared bit-for-bit, "
+    "each transformed input perturbed alone and every other output required bit-identical, own output monotone.",
+    "Expected transformed set computed by the harness from the mask argument (> 0); exhaustive only over the mask patterns, sampled "
+    "over values, shapes and parameters.",
+    "DESIGN.md section 3 C07")
+CHECKS["C08"] = (
+    "hand-chained reference monitor over random wrapper programs (Composite/Inverse nestings) in float64 and in the mixed "
+    "default-float32 / .double() world; unique-id routing monitor for the multiscale composite against a pure-python model of the "
+    "documented routing, exhaustive over shapes x split_dim x stages up to a bound",
+    "Wrapper results are compared with the parts applied by the harness in the stated order (outputs bitwise, log-dets to 1e-12, dtype "
+    "included); multiscale inputs are distinct integers and stage i adds 10^(4+i), so each output value identifies its source "
+    "coordinate and the stages it traversed; inverse(forward(x)) == x exactly; log-det bookkeeping checked with per-stage scales.",
+    "Parts are trusted here (C01/C02 judge them); multiscale grid bounded by extents <= 9 (1-D), <= 5x5, <= 6x3x3 (6x4x4 thorough), <= 4 stages.",
+    "DESIGN.md section 3 C08")
+
 PENDING_REASON = "check not built yet in this session (planned, see DESIGN.md section 3); not claimed until it exists and is calibrated"
 
 
